@@ -386,6 +386,7 @@ struct Harness {
   bool hangMonitorEnabled = true;
   unsigned hangWindow     = 20; // samples of 0.5 s
   long nViolations        = 0;
+  int mpiRank             = 0;
 
   Harness(const char* propId, int argc, char** argv) : prop(propId) {
     for (int i = 1; i < argc; ++i) {
@@ -418,6 +419,13 @@ struct Harness {
         exit(2);
       }
     }
+    // under mpirun every rank gets the same arguments: only rank 0 reports
+    // (gather what the other ranks observed with plain MPI before calling
+    // begin/end/violation on rank 0)
+    const char* rk = getenv("OMPI_COMM_WORLD_RANK");
+    mpiRank        = rk ? atoi(rk) : 0;
+    if (mpiRank != 0)
+      outPath = "/dev/null";
     out = outPath.empty() ? stdout : fopen(outPath.c_str(), "a");
     if (!out) {
       perror("open out");
